@@ -328,8 +328,13 @@ func (r *Resolver) Resolve(ctx context.Context, name string) (ResolveResult, err
 	if len(strings.TrimSuffix(name, ".")) > 253 {
 		return result, ErrInvalidName
 	}
-	for _, p := range strings.Split(name, ".") {
-		if len(p) > 63 {
+	// What is left must be a host name: a port that did not parse, an
+	// address with a zone, or an empty label is not one.
+	if name == "" || strings.ContainsAny(name, ":%/[]@ ") {
+		return result, ErrInvalidName
+	}
+	for _, p := range strings.Split(strings.TrimSuffix(name, "."), ".") {
+		if len(p) == 0 || len(p) > 63 {
 			return result, ErrInvalidName
 		}
 	}
